@@ -83,14 +83,14 @@ Theorem C17_skiplist_no_error : forall ops, no_iter_ops_k ops = true -> snd (k_r
 Proof. exact skip_c17_no_error. Qed.
 Print Assumptions C17_skiplist_no_error.
 
-Theorem C17_skiplist_ascending : forall s C0, SGood s C0 ->
+Theorem C17_skiplist_ascending : forall s C0, SGood17 s C0 ->
   Sorted.StronglySorted (fun a b => key_ltb (fst a) (fst b) = true) (live_kv (kabs s C0)).
 Proof. exact skip_traversal_ascending. Qed.
 Print Assumptions C17_skiplist_ascending.
 
 (* every API call from a well-formed skiplist, for every oracle answer list: succeeds, equals the layer-A step on
    the abstraction, keeps the structure well formed *)
-Theorem C17_skiplist_refines_layerA : forall rc s C0 o orc, SGood s C0 -> is_iter_op o = false -> kstep_ok rc s C0 o orc.
+Theorem C17_skiplist_refines_layerA : forall rc s C0 o orc, SGood17 s C0 -> is_iter_op o = false -> kstep_ok17 rc s C0 o orc.
 Proof. exact skip_step_ok. Qed.
 Print Assumptions C17_skiplist_refines_layerA.
 
